@@ -98,6 +98,23 @@ Theorem pin_ls_cid_truthful c depth d s : head_ok s = true ->
 Proof. exact (pin_ls_truthful_l c depth d s). Qed.
 Print Assumptions pin_ls_cid_truthful.
 
+(* the boolean check applied to the implementation's observation (Model/C16_Check.v spec_fails) implies the
+   property of that observation: success only with the CID held as asked, a failed decisive exchange is not a
+   success, a stalled one is an error, at most min(10, #origins) swarm connects *)
+Theorem check_pin_sound p d s ob : spec_fails (OpPin p) d s ob = [] -> PinSpec p d s ob.
+Proof. exact (spec_pin_sound p d s ob). Qed.
+Print Assumptions check_pin_sound.
+
+Theorem check_unpin_sound c dis d s ob : spec_fails (OpUnpin c dis) d s ob = [] -> UnpinSpec c d s ob.
+Proof. exact (spec_unpin_sound c dis d s ob). Qed.
+Print Assumptions check_unpin_sound.
+
+(* the check recomputes the daemon's replies from the requests it received; on the model's own run this
+   reproduces the model's exchange log *)
+Theorem model_log_replays p d s r d' x : conn_pin p d s = (r, d', x) -> replay d (requests x) s = x.
+Proof. exact (replay_pin p d s r d' x). Qed.
+Print Assumptions model_log_replays.
+
 (* non-vacuity: the three successful ways through Pin, on concrete inputs *)
 Example pin_by_add : conn_pin (mk_pin 0%N 0 Dir 2%N None) [(1%N, Rec)] [BOk 0%N false; BOk 3%N true]
   = (ROk, [(0%N, Dir); (1%N, Rec)], [(CLs 0%N Dir, PErr MOther); (CAdd 0%N false None true, PBody)]).
